@@ -69,7 +69,7 @@ def run(
     depth: int | None = None,
     seed: int | None = None,
     env: dict | None = None,
-    timeout: float = 900,
+    timeout: float = 3600,
     coverage: bool = False,
     deadlock: bool = False,  # check deadlock?
     cont: bool = False,  # -continue
@@ -77,6 +77,9 @@ def run(
     allow_violation: bool = True,
     extra_props: dict | None = None,  # JVM -D properties
 ) -> TLCResult:
+    # a loaded machine makes TLC 3-10 times slower; a time limit that is hit reports a machinery failure, which says
+    # nothing about the property, so every limit is at least an hour
+    timeout = max(float(timeout), 3600.0)
     module = Path(module)
     if not module.is_absolute():
         module = SPEC / module
